@@ -842,3 +842,13 @@ add("C08", "revert: replace() clears the links of a node contained in its own re
     "        if expression is not self:\n", "C08.b")
 add("C08", "revert: pushdown_dnf embeds the looked-up predicate itself", "sqlglot/optimizer/pushdown_predicates.py",
     "                node.on(predicate.copy(), copy=False)", "                node.on(predicate, copy=False)", "C08.g")
+
+add("C13", "revert: multi-character advances ignore the line breaks they step over", "sqlglot/tokenizer_core.py",
+    "                self._line += breaks\n                self._col = i - 1 - max(skipped.rfind(\"\\n\"), skipped.rfind(\"\\r\"))\n",
+    "                pass\n", "C13.g")
+add("C13", "multi-character branch counts CR and LF separately", "sqlglot/tokenizer_core.py",
+    "                breaks = skipped.count(\"\\n\") + skipped.count(\"\\r\") - skipped.count(\"\\r\\n\")\n",
+    "                breaks = skipped.count(\"\\n\") + skipped.count(\"\\r\")\n", "C13.g")
+add("C05", "revert: DataType enum looked up by token name without a membership test", P,
+    "            if type_token.name not in exp.DType.__members__:\n                # Type tokens without a DataType counterpart are handled above, e.g. NULLABLE(<type>)\n                self.raise_error(f\"Invalid arguments for type {type_token.name}\")\n                self._retreat(index)\n                return None\n\n",
+    "", "C05.p")
